@@ -432,6 +432,18 @@ class Program:
                     b.subclasses.append(ci)
         for ci in set(self.classes.values()):
             ci.mro = _c3(ci)
+        # slot types from constructor parameters: `self.x = param` with an annotated param
+        for ci in set(self.classes.values()):
+            init = ci.methods.get('__init__')
+            if init is None or isinstance(init.node, ast.Lambda):
+                continue
+            for s in ast.walk(init.node):
+                if isinstance(s, ast.Assign) and len(s.targets) == 1 and isinstance(s.targets[0], ast.Attribute) \
+                        and isinstance(s.targets[0].value, ast.Name) and s.targets[0].value.id == 'self' \
+                        and isinstance(s.value, ast.Name) and s.targets[0].attr not in ci.annotations:
+                    ann = init.param_annotation(s.value.id)
+                    if ann is not None:
+                        ci.annotations[s.targets[0].attr] = unparse(ann)
 
     # ------------------------------------------------------------------ queries
     def module(self, short: str) -> Module:
